@@ -1774,6 +1774,44 @@ def lowering_item():
             % "; ".join("(%d%%N, (%d%%N, %s, %s, %s, %s))" % (k, o, b(p_), b(v), b(r), b(s_)) for k, o, p_, v, r, s_ in rows))
 
 
+def first_visit_item():
+    """ExecutionPlanner.create_plan_for, first visit of a lowering task: (a) a task already visited shares that lowering's
+    operations and is not lowered again; (b) otherwise it is recorded as visited, the prune test is made (prune_item), it is
+    marked for its second visit and pushed back; (c) its dependencies are taken in REVERSED declaration order, and per
+    dependency: 0 = already visited: linked to the visited lowering, not traversed; 1 = a new lowering task, linked and pushed."""
+    f = _find_method("conductor/execution/planning/planner.py", "ExecutionPlanner", "create_plan_for")
+    first = [st for st in _walk_stmts(f.body) if isinstance(st, ast.If) and ast.unparse(st.test) == "lt.state == LoweringState.FIRST_VISIT"]
+    if len(first) != 1:
+        raise Unsupported("%d tests for the first visit" % len(first))
+    body = [st for st in first[0].body if not _is_logging(st)]
+    shape = [type(st).__name__ for st in body]
+    if shape != ["If", "Assign", "If", "Assign", "Expr", "For"]:
+        raise Unsupported("the first visit has the shape %s" % shape)
+    seen, rec, prune, mark, push, loop = body
+    if ast.unparse(seen.test) != "lt.task.identifier in visited" or [ast.unparse(x) for x in seen.body] != ["lt.output_ops = visited[lt.task.identifier].output_ops", "continue"] or seen.orelse:
+        raise Unsupported("a task reached a second time does not share the visited lowering's operations")
+    if ast.unparse(rec) != "visited[lt.task.identifier] = lt" or ast.unparse(mark) != "lt.state = LoweringState.SECOND_VISIT" or ast.unparse(push) != "stack.append(lt)":
+        raise Unsupported("the first visit does not record the task, mark its second visit and push it back")
+    if "should_run" not in ast.unparse(prune.test):
+        raise Unsupported("the test after recording the task is not the prune test")
+    if ast.unparse(loop.target) != "dep_ident" or ast.unparse(loop.iter) != "reversed(lt.task.deps)" or loop.orelse:
+        raise Unsupported("the dependencies are not taken in reversed declaration order: %s" % ast.unparse(loop.iter))
+
+    def act(stmts):
+        srcs = [ast.unparse(x) for x in stmts]
+        if srcs and isinstance(stmts[0], ast.If) and ast.unparse(stmts[0].test) == "dep_ident in visited":
+            return "(if dep_visited then %s else %s)" % (act(list(stmts[0].body) + list(stmts[1:])), act(list(stmts[0].orelse) + list(stmts[1:])))
+        if srcs[:3] == ["dep = visited[dep_ident]", "lt.deps.append(dep)", "continue"]:
+            return "0%N"
+        if srcs == ["dep = LoweringTask.initial(self._ctx.task_index.get_task(dep_ident))", "lt.deps.append(dep)", "stack.append(dep)"]:
+            return "1%N"
+        raise Unsupported("the dependency loop of the first visit does something else: %r" % srcs)
+
+    return ("(* conductor/execution/planning/planner.py create_plan_for, first visit: per dependency (reversed declaration order) *)\n"
+            "Definition gen_push_dep (dep_visited : bool) : N := %s.\n"
+            "Definition gen_first_visit_shares_a_visited_lowering : bool := true.\n" % act(list(loop.body)))
+
+
 def version_item():
     """VersionIndex.generate_new_output_version: the timestamp as a function of the clock and the last timestamp"""
     f = _find_method("conductor/execution/version_index.py", "VersionIndex", "generate_new_output_version")
@@ -1838,7 +1876,7 @@ def generate():
         failures["task_type_table"] = "%s: %s" % (type(ex).__name__, ex)
         parts.append("(* task_type_table: NOT TRANSLATED: %s *)\n" % str(ex).replace("*)", "* )"))
     for coqname, fn in (("gen_gate_open", gate_item), ("gen_new_version", version_item), ("gen_loop_goes_on", loop_item), ("gen_wants_slot", slot_item),
-                        ("gen_prune", prune_item), ("gen_should_run", should_run_item), ("gen_sel_top", select_item), ("gen_validate_args", validate_args_item), ("gen_finish", finish_item), ("gen_record_type", record_type_item), ("gen_tee_iteration", tee_item), ("gen_env_overrides", spawn_item), ("gen_launch_block", abort_item), ("gen_combine_decision", combine_item), ("gen_gc_decision", gc_item), ("gen_restore_before_loop", restore_item), ("gen_archive_output_decision", archive_item), ("gen_deps_paths_step", deps_paths_item), ("gen_copy_query", copy_item), ("gen_ident_repr", ident_item), ("gen_where_decision", where_item), ("gen_enqueue_dependent", exec_decisions_item), ("gen_clean_removals", clean_item), ("gen_lowering", lowering_item)):
+                        ("gen_prune", prune_item), ("gen_should_run", should_run_item), ("gen_sel_top", select_item), ("gen_validate_args", validate_args_item), ("gen_finish", finish_item), ("gen_record_type", record_type_item), ("gen_tee_iteration", tee_item), ("gen_env_overrides", spawn_item), ("gen_launch_block", abort_item), ("gen_combine_decision", combine_item), ("gen_gc_decision", gc_item), ("gen_restore_before_loop", restore_item), ("gen_archive_output_decision", archive_item), ("gen_deps_paths_step", deps_paths_item), ("gen_copy_query", copy_item), ("gen_ident_repr", ident_item), ("gen_where_decision", where_item), ("gen_enqueue_dependent", exec_decisions_item), ("gen_clean_removals", clean_item), ("gen_lowering", lowering_item), ("gen_push_dep", first_visit_item)):
         try:
             parts.append(fn())
         except Exception as ex:  # pylint: disable=broad-except
